@@ -138,3 +138,91 @@ Example C01_example :
   | None => False
   end.
 Proof. vm_compute. split; [discriminate|reflexivity]. Qed.
+
+(* ---- the representation invariant is inductive AT L1 (Proofs/CoreInv.v): the implementation-shaped algorithms
+   themselves re-establish inv_b on every table they produce -- duplicate-free row ids; Index caches absent or exact
+   (position cache = combine ids (seq 0 n), maximum = the true maximum, -1 when empty); distinct names, each bound to an
+   existing column object; every column object carrying the table's row ids, one cell per row, the owner and
+   type-checking flags, valid caches of its own Index and cells that are normal forms of its column type.  So inv_b,
+   which the refinement theorems above assume and the correspondence evaluates on dumped states, is not only checked
+   but proved to be preserved, step by step and along whole L1 histories.
+   step_fits (CoreInv.v) is the only side condition, two conjuncts:
+   (1) OSort / OShuffle / OSample: the order or choice supplied by the oracle holds no position twice (sorted(),
+       random.shuffle and random.sample guarantee it; Spec.Ops.step validates the same and answers Err otherwise);
+   (2) OSetCell / OSetCol into an IntColumn: every written value coerces to an integer inside the int64 range or is
+       refused (int64 overflow is outside the model; nothing is asked for MixedColumns and FloatColumns). ---- *)
+From DM Require Import Proofs.CoreInv.
+
+Theorem C01_l1_step_keeps_representation_invariant : forall p o,
+  winv p -> step_fits p o = true ->
+  match lstep p o with
+  | LNew r | LUpd _ r | LErrUpd _ r => inv_b r = true
+  | LErr | LSkip => True
+  end.
+Proof. exact lstep_keeps_inv. Qed.
+Print Assumptions C01_l1_step_keeps_representation_invariant.
+
+(* a << b (concat_l, used by Run/RCore.v): no side condition at all *)
+Theorem C01_l1_concat_keeps_representation_invariant : forall a b nf r,
+  concat_l a b nf = Ok r -> inv_b a = true -> inv_b b = true -> inv_b r = true.
+Proof. exact concat_keeps_inv. Qed.
+Print Assumptions C01_l1_concat_keeps_representation_invariant.
+
+(* the complete L1 step (lstep_all = lstep + the three cases lstep leaves to its callers: DataMatrix(length=n) on
+   Index(n), a << b through concat_l, dm[name] = value on a missing name creating the column first) *)
+Theorem C01_l1_full_step_keeps_representation_invariant : forall p nf o,
+  winv p -> step_fits p o = true ->
+  match lstep_all p nf o with
+  | LNew r | LUpd _ r | LErrUpd _ r => inv_b r = true
+  | LErr | LSkip => True
+  end.
+Proof. exact lstep_all_keeps_inv. Qed.
+Print Assumptions C01_l1_full_step_keeps_representation_invariant.
+
+(* L1 histories from the empty pool (lrun: LNew appends, LUpd i / LErrUpd i replace member i), over the whole
+   alphabet, any length: every table of every reachable pool satisfies inv_b *)
+Theorem C01_l1_histories_keep_representation_invariant : forall ops,
+  hist_fits ops = true -> winv (lrun ops).
+Proof. exact lrun_keeps_inv. Qed.
+Print Assumptions C01_l1_histories_keep_representation_invariant.
+
+(* ... and from any pool that satisfies it (e.g. a dumped one) *)
+Theorem C01_l1_histories_keep_representation_invariant_from : forall ops p nf,
+  winv p -> hist_fits_from ops p nf = true -> winv (lrun_from ops p nf).
+Proof. exact lrun_keeps_inv_from. Qed.
+Print Assumptions C01_l1_histories_keep_representation_invariant_from.
+
+(* non-vacuity: a history over all three column types that exercises every case of lstep_all satisfies hist_fits,
+   every table it reaches passes inv_b (as the theorem says), and the L1 pool denotes the L0 pool of the same history *)
+Definition ex_l1_history : list op :=
+  [ONew 3; OSetColKind 0 "f" KFloat; OSetColKind 0 "i" KInt;
+   OSetCol 0 "a" (RSeq [PInt 3; PStr "x" None None; PNone]);
+   OSetCol 0 "f" (RSeq [PInt 1; PFloat (FFin false 5 (-1)); PStr "2" (Some 2%Z) (Some (FFin false 1 1))]);
+   OSetCol 0 "i" (RSeq [PInt 7; PFloat (FFin false 5 (-1)); PInt (-4)]);
+   OSelect 0 "f" CGe (VInt 2); OSetLength 0 5%Z; OShuffle 0 [4; 0; 3; 1; 2]%nat; OMerge MOr 2 1;
+   OSetCell 2 "a" (ASel 1) (RScalar (PInt 7)); OSetCell 2 "i" (AList [0%Z; 1%Z]) (RScalar (PInt 9));
+   OSetCell 0 "z" (ARow 1) (RScalar (PStr "w" None None)); OSetColFromCol 0 "b" 0 "a";
+   OSetColFromSlice 0 "c" "i" [4%Z; 3%Z; 2%Z; 1%Z; 0%Z]; OSetCell 0 "i" (ASlice (Some 1%Z) None) (RScalar (PInt 5));
+   OSetCell 0 "f" (AInt (-1)) (RScalar (PInt 2)); OSlice 0 (Some 1%Z) (Some 4%Z); OGetRows 0 [3%Z; 0%Z];
+   ORename 0 "a" "aa" true; OSort 2 "i" [4; 2; 3; 0; 1]%nat; OSample 0 2 [3; 1]%nat; OConcat 0 1; OSetSorted 0 false;
+   ODelCol 0 "f"; OSetLength 0 4%Z; ODelRows 0 [0%Z; (-1)%Z]].
+Example C01_l1_example :
+  hist_fits ex_l1_history = true
+  /\ List.length (lrun ex_l1_history) = 9%nat
+  /\ forallb inv_b (lrun ex_l1_history) = true
+  /\ list_eqb table_eqb (map abs (lrun ex_l1_history)) (pool (run ex_l1_history w0)) = true.
+Proof. vm_compute. repeat split; reflexivity. Qed.
+
+(* step_fits on a concrete pool, and both conjuncts are needed: a repeated position yields duplicate row ids, an
+   integer beyond int64 yields an IntColumn cell that is not a normal form *)
+Example C01_l1_step_fits_example :
+  let p := lrun ex_l1_history in
+  step_fits p (OSetCell 2 "i" (ASel 1) (RSeq [PInt 4; PFloat (FFin false 7 (-1))])) = true
+  /\ step_fits p (OSort 2 "f" [2; 0; 1; 4; 3]%nat) = true
+  /\ match lstep p (OSetCell 2 "i" (ASel 1) (RSeq [PInt 4; PFloat (FFin false 7 (-1))])) with
+     | LUpd 2 r => inv_b r = true | _ => False end
+  /\ step_fits p (OShuffle 2 [0; 0; 1; 2; 3]%nat) = false
+  /\ match lstep p (OShuffle 2 [0; 0; 1; 2; 3]%nat) with LNew r => inv_b r = false | _ => False end
+  /\ step_fits p (OSetCol 2 "i" (RScalar (PInt (2 ^ 63)))) = false
+  /\ match lstep p (OSetCol 2 "i" (RScalar (PInt (2 ^ 63)))) with LUpd 2 r => inv_b r = false | _ => False end.
+Proof. vm_compute. repeat split; reflexivity. Qed.
